@@ -306,7 +306,7 @@ class MapVertical(MapResults):
             int for number of duplications.
         """
 
-        return self.map.number_duplication()
+        return self.map.number_duplication
 
 
 class MapLateral(MapResults):
